@@ -501,6 +501,36 @@ def _epub(C, repo):
     m = loader.module(rel, repo)
     _returns_numbered(C, m, rel, "_extract_chapter", "C03/epub_extractor.py::_extract_chapter/construction#returned-chapter-carries-the-number-passed-in",
                       "EpubChapter", "chapter_number", "chapter_number", first_of_tuple=True, allow_none=True)
+    # parser state must not outlive a content document: whatever is fed the markup of a chapter is constructed in the very function
+    # call that handles this chapter (an instance shared between chapters carries open-element state from one unit into the next)
+    oid_p = "C03/epub_extractor.py::chapter-text/construction#markup-parser-constructed-per-content-document"
+    feeds = []
+    for q, f_ in m.functions.items():
+        if ".<locals>." in q:
+            continue
+        for n in ast.walk(f_):
+            if isinstance(n, ast.Call) and isinstance(n.func, ast.Attribute) and n.func.attr == "feed" and q.split(".")[-1] not in ("feed",) \
+                    and not q.startswith("_XhtmlTextExtractor"):
+                feeds.append((q, f_, n))
+    if not feeds:
+        C.add(oid_p, None, "no markup parser is fed in this module")
+    else:
+        why = []
+        for q, f_, n in feeds:
+            recv = n.func.value
+            ok = False
+            if isinstance(recv, ast.Name) and recv.id not in [a.arg for a in f_.args.posonlyargs + f_.args.args + f_.args.kwonlyargs]:
+                defs = [d for d in assigns_to(f_, recv.id) if isinstance(d, (ast.Assign, ast.AnnAssign))]
+                ok = len(defs) == 1 and isinstance(defs[0].value, ast.Call) and isinstance(defs[0].value.func, ast.Name) \
+                    and defs[0].value.func.id in m.classes and not defs[0].value.args and not defs[0].value.keywords
+                # ... and the construction is not hoisted out of a loop that feeds it repeatedly
+                if ok:
+                    for lp in [x for x in ast.walk(f_) if isinstance(x, (ast.For, ast.While))]:
+                        if any(y is n for y in ast.walk(lp)) and not any(y is defs[0] for y in ast.walk(lp)):
+                            ok = False
+            if not ok:
+                why.append(f"{q}: `{ast.unparse(recv)}.feed(...)` at line {n.lineno} uses a parser that is not constructed right there")
+        C.add(oid_p, True if not why else False, "; ".join(why) or f"{len(feeds)} feed site(s), each on a parser constructed in the same call", rel)
     fn = m.functions.get("read_epub")
     oid = "C03/epub_extractor.py::read_epub/construction#chapter-number-is-the-1-based-spine-position"
     if fn is None:
